@@ -173,8 +173,16 @@ def equality_test(actual, expected, _exact_strings, _delta):
         return True
     # Two dataclasses
     elif is_dataclass(expected) and is_dataclass(actual):
-        return (expected.__name__ == actual.__name__ and
-                all(e.name == a.name and equality_test(e.type, a.type, _exact_strings, _delta)
+        if isinstance(expected, type) or isinstance(actual, type):
+            return (isinstance(expected, type) and isinstance(actual, type) and
+                    expected.__name__ == actual.__name__ and
+                    all(e.name == a.name and equality_test(e.type, a.type, _exact_strings, _delta)
+                        for e, a in zip(fields(expected), fields(actual))))
+        # Two instances: same class name, and field by field with the usual leniency
+        return (type(expected).__name__ == type(actual).__name__ and
+                len(fields(expected)) == len(fields(actual)) and
+                all(e.name == a.name and equality_test(getattr(expected, e.name), getattr(actual, a.name),
+                                                       _exact_strings, _delta)
                     for e, a in zip(fields(expected), fields(actual))))
     # Else
     return False
